@@ -955,9 +955,50 @@ func collectSyms(t *Term, vars map[string]*Term, ufs map[string]*Term, seen map[
 	}
 }
 
+// String prints a bounded rendering (terms are DAGs: an unbounded tree print can be exponential).
 func (t *Term) String() string {
 	var sb strings.Builder
-	printTerm(&sb, t, nil)
+	var rec func(t *Term, depth int)
+	rec = func(t *Term, depth int) {
+		if sb.Len() > 600 {
+			return
+		}
+		if depth > 7 {
+			sb.WriteString("..")
+			return
+		}
+		switch t.Op {
+		case "true", "false", "bvconst", "intconst", "var", "bound":
+			printTerm(&sb, t, nil)
+			return
+		case "poly":
+			sb.WriteString("(poly")
+			for i, m := range t.Poly.ms {
+				if i > 6 {
+					sb.WriteString(" ..")
+					break
+				}
+				sb.WriteString(" " + m.coef.String())
+				for _, a := range m.atoms {
+					sb.WriteString("*")
+					rec(a, depth+1)
+				}
+			}
+			sb.WriteString(")")
+			return
+		}
+		name := t.Op
+		if t.Op == "uf" {
+			name = t.Name
+		}
+		sb.WriteString("(" + name)
+		for _, a := range t.Args {
+			sb.WriteString(" ")
+			rec(a, depth+1)
+		}
+		sb.WriteString(")")
+	}
+	rec(t, 0)
 	s := sb.String()
 	if len(s) > 400 {
 		return s[:400] + "..."
